@@ -779,6 +779,23 @@ func (x *Exec) evalCall(e *CE, env *Env) TV {
 			t = b.T
 		}
 		return TV{x.mergeValue(cond, a.V, b.V), t}
+	case "same": // structural identity: every leaf equal (strings: same view; floats: same bits)
+		a, b := arg(0), arg(1)
+		if isFloat(a.T) && !isFloat(b.T) {
+			b = x.toFloat(b)
+		} else if isFloat(b.T) && !isFloat(a.T) {
+			a = x.toFloat(a)
+		}
+		t := a.T
+		if t == untypedInt || t == types.Typ[types.UntypedNil] {
+			t = b.T
+		}
+		fa, fb := x.flatten(a.V, t), x.flatten(b.V, t)
+		var parts []*Term
+		for i := range fa {
+			parts = append(parts, c.Eq(fa[i], fb[i]))
+		}
+		return TV{Sc{c.And(parts...)}, boolT}
 	case "sameview":
 		a, b := arg(0), arg(1)
 		switch av := a.V.(type) {
